@@ -26,14 +26,36 @@ Print Assumptions C20_ok_inside_text.
    killed by a signal, undecodable/garbled, no OK line, FAIL first, …) the
    signature check fails — it never returns normally. *)
 Theorem C20_verify :
-  forall (no_certs : bool) (runs : list tool_result) (cert_valid : bool),
+  forall (no_certs : bool) (runs : list tool_result) (only_valid_cert cert_valid : bool),
     (forall r, In r runs -> reports_success r = false) ->
-    check_signature_runs no_certs runs false cert_valid <> Ok tt.
+    check_signature_runs no_certs runs only_valid_cert cert_valid <> Ok tt.
 Proof.
-  intros z runs cv Hall H. apply check_signature_ok in H as (_ & _ & r & Hin & Hr).
+  intros z runs ovc cv Hall H. apply check_signature_ok in H as (_ & _ & r & Hin & Hr).
   rewrite (Hall r Hin) in Hr. discriminate.
 Qed.
 Print Assumptions C20_verify.
+
+(* the library before fix 0b54cc6b (F16; check_signature_runs_before_fix) did not satisfy it for only_valid_cert = true:
+   a tool run that reports FAIL, a valid certificate - and the check returned normally.  With only_valid_cert off the
+   old code was today's (C20_verify_before_fix_partial). *)
+Theorem C20_verify_before_fix_refuted :
+  exists runs, (forall r, In r runs -> reports_success r = false) /\
+    check_signature_runs_before_fix false runs true true = Ok tt /\
+    check_signature_runs false runs true true = Err (s2l "SignatureError").
+Proof.
+  exists [Ran {| signaled := false; p_out := []; p_err := s2l "FAIL"; undecodable := false; outfile := [] |}].
+  split; [intros r [<-|[]]; reflexivity|]. split; reflexivity.
+Qed.
+Print Assumptions C20_verify_before_fix_refuted.
+
+Theorem C20_verify_before_fix_partial :
+  forall (no_certs : bool) (runs : list tool_result) (cert_valid : bool),
+    (forall r, In r runs -> reports_success r = false) ->
+    check_signature_runs_before_fix no_certs runs false cert_valid <> Ok tt.
+Proof.
+  intros z runs cv Hall. rewrite check_signature_before_fix_off. now apply C20_verify.
+Qed.
+Print Assumptions C20_verify_before_fix_partial.
 
 Theorem C20_verify_single_never_false : forall r, validate_signature r <> Ok false.
 Proof. exact validate_signature_never_false. Qed.
@@ -77,13 +99,13 @@ Definition catalogue : list tool_result := [
 ].
 Example C20_fault_catalogue :
   forallb (fun r => negb (reports_success r)) catalogue = true /\
-  (forall cv, check_signature_runs false catalogue false cv <> Ok tt) /\
+  (forall ovc cv, check_signature_runs false catalogue ovc cv <> Ok tt) /\
   forallb (fun r => negb (is_ok (sign_statement r)) && negb (is_ok (encrypt_assertion r))) catalogue = true /\
   reports_success (mk false [] (s2l "OK") false []) = true /\
   reports_success (mk false [] (s2l "func=xmlSec" ++ [13;10] ++ OKs ++ [10] ++ s2l "SignedInfo References (ok/all): 1/1") false []) = true.
 Proof.
   split; [vm_compute; reflexivity|]. split.
-  - intros cv. apply C20_verify. intros r Hin.
+  - intros ovc cv. apply C20_verify. intros r Hin.
     assert (forallb (fun r => negb (reports_success r)) catalogue = true) as H by (vm_compute; reflexivity).
     rewrite forallb_forall in H. specialize (H r Hin). now destruct (reports_success r).
   - vm_compute. repeat split; reflexivity.
